@@ -262,19 +262,27 @@ fn depth_of(doc: &toml_edit::DocumentMut) -> usize {
 
 /// The recursion-limit error is recognised by what the library itself says for two reference documents far
 /// beyond the limit (300 nested arrays, 300 nested inline tables), not by a fixed wording: a reworded message
-/// is still the recursion-limit error.  Calibrated once per worker on a large stack.
+/// is still the recursion-limit error - unless it is what the library also says for a shallow malformed document
+/// (then it is a syntax error and a deep document rejected with it was not rejected for its depth).  Calibrated once
+/// per worker on a large stack.
 fn limit_messages() -> &'static Vec<String> {
     static M: std::sync::OnceLock<Vec<String>> = std::sync::OnceLock::new();
     M.get_or_init(|| {
         std::thread::Builder::new()
             .stack_size(256 << 20)
             .spawn(|| {
+                let core = |text: &str| -> Option<String> {
+                    // the cause is the last line; lines before it are context labels ("invalid table header", ...)
+                    text.parse::<toml_edit::DocumentMut>().err().and_then(|e| e.message().lines().last().map(|l| l.trim().to_string()))
+                };
+                // what the library says for SHALLOW malformed documents is a syntax error, whatever else it is said for:
+                // a deep document rejected with one of these lines was not rejected "with a recursion-limit error"
+                let syntax: Vec<String> = ["k=[", "k=[1", "k=[1 2]", "k=[[1]", "k={", "k={a=", "k={a=1", "k={a={b=1}", "k={a=1,}", "k=", "a.=1", "a.b", "[a", "[[a]", "[a.]", "k=[{a=1]", "k={a=[1}"].iter().filter_map(|t| core(t)).collect();
                 let mut v = Vec::new();
                 for text in [format!("k={}{}", "[".repeat(300), "]".repeat(300)), format!("k={}1{}", "{a=".repeat(300), "}".repeat(300))] {
-                    if let Err(e) = text.parse::<toml_edit::DocumentMut>() {
-                        // the cause is the last line; lines before it are context labels ("invalid table header", ...)
-                        if let Some(core) = e.message().lines().last() {
-                            v.push(core.trim().to_string());
+                    if let Some(c) = core(&text) {
+                        if !syntax.contains(&c) {
+                            v.push(c);
                         }
                     }
                 }
